@@ -42,6 +42,16 @@ pub fn signal_gate(action: Handler, signal_map: &SignalMap, env: &mut AEnv) -> (
             ==> r.quit is None && *final(env) == *old(env), // OBL:C08.cli.unmapped_interrupt_or_terminate_quits
 //@ epilogue
     action
+//@ item event_gate
+//@ header
+// the gate in front of the run / on-busy logic: an action goes on to it exactly when it carries a filesystem change (an event naming a path) or a
+// synthetic empty event (the start-up event); anything else (signals only, keyboard, ...) is handed back without starting anything
+pub fn event_gate(action: Handler) -> (r: GateOut)
+    ensures
+        r.skipped == (!action.has_path@ && !action.has_empty@), // OBL:C05.event_gate.changes_and_the_start_up_event_go_on_to_the_run_logic
+        r.action == action,
+//@ epilogue
+    vx_go_on(action)
 //@ item queue_task
 //@ header
 pub fn queue_task(job: Job, queued: QueuedS, env: &mut AEnv)
